@@ -195,6 +195,8 @@ namespace chaiscript {
         return true;
       }
 
+      // a file shorter than the BOM leaves the stream in a failed state, in which seekg() and read() do nothing
+      infile.clear();
       infile.seekg(0);
 
       return false;
